@@ -51,6 +51,12 @@ Definition h_safe_trace_gen (a : list sx) : sx :=
   | _ => err "arity"
   end.
 
+Definition h_find_max_part_skip (a : list sx) : sx :=
+  match a with
+  | [refs] => match as_list_of as_bytes refs with Some refs => sopt sN (Some (find_max_part_skip refs)) | None => err "args" end
+  | _ => err "arity"
+  end.
+
 Definition h_no_write (a : list sx) : sx :=
   match a with
   | [tr] => match as_list_of as_call tr with Some tr => sbool (check_no_write tr) | None => err "args" end
@@ -145,4 +151,4 @@ Definition h_append_rel (a : list sx) : sx :=
 Definition table : list (string * handler) :=
   [("safe_trace", h_safe_trace); ("no_write", h_no_write); ("fs_run", h_fs_run);
    ("append_seq", h_append_seq); ("part_id", h_part_id); ("find_max_part", h_find_max_part);
-   ("append_trace", h_append_trace); ("read_cat", h_read_cat); ("append_rel", h_append_rel); ("safe_trace_sym", h_safe_trace_sym); ("safe_trace_gen", h_safe_trace_gen)].
+   ("append_trace", h_append_trace); ("read_cat", h_read_cat); ("append_rel", h_append_rel); ("safe_trace_sym", h_safe_trace_sym); ("safe_trace_gen", h_safe_trace_gen); ("find_max_part_skip", h_find_max_part_skip)].
